@@ -14,8 +14,9 @@ class Ctx:
     Everything stored here must be concrete (plain str/int/tuple) on the current path.
     """
 
-    def __init__(self, symbolic):
+    def __init__(self, symbolic, engine="crosshair"):
         self.symbolic = symbolic
+        self.engine = engine
         self.covers = set()
         self.sig = None  # concrete, hashable: what makes this path's trace distinct
         self.nontrivial = False
@@ -27,6 +28,10 @@ class Ctx:
         """Concrete value of x on this path (forks over the remaining feasible values when symbolic)."""
         if not self.symbolic:
             return x
+        if self.engine == "zsym":
+            from .zsym import realize
+
+            return realize(x)
         from crosshair.core import deep_realize
 
         return deep_realize(x)
